@@ -24,6 +24,19 @@ Oracle clauses (violation key = C14:<clause>:<site or field>):
   edit-lost:<kind>.<attr>                bytes -> parse -> assign the attribute -> pack -> parse: the new value is gone
   edit-corrupts:<kind>.<attr>            ... another attribute (the one named) differs from the packet built from scratch
   edit-checksum:<where>, edit-length:<where>.<field>   ... the new bytes carry a stale checksum / length
+  encoded-edit-*                         the same four clauses with the assignment made on the ASSEMBLED objects after a first pack()
+  [encoded-]payload-edit-checksum: / -length: / -lost:<kind> / -corrupts:<kind>.<attr>
+                                         the innermost payload of a parsed (encoded-: an assembled and packed) packet is replaced
+                                         and the packet packed again: differs from the packet assembled around the new payload
+  reuse-checksum:<where>, reuse-length:<where>.<field>, reuse-differs:<kind>@<offset>
+                                         a header object that already has a container (assembled / packed / parsed, same or another
+                                         stack) is handed to a new container (.payload = / set_payload() / payload= keyword): the new
+                                         packet is not the one assembled from scratch
+  payload:<container>><announced>, repack:<container>><announced>
+                                         a container announcing header kind X carries plain bytes that are no (complete) X header -
+                                         every truncation of a valid inner packet, garbage of every length up to 64 - and the bytes
+                                         do not survive pack -> parse -> pack (see check_under for when this is judged)
+  field:gre.flags                        the C/R/K/S bits of an emitted GRE header do not describe the optional fields that follow
 """
 import os, sys, traceback
 from mc.engine import pmap
@@ -166,6 +179,7 @@ def check_case (P, st, devs, plen):
     p = P.pkt.ethernet(raw=b)
   except Exception as e:
     _raised(c, e, "parsing the library's own bytes")
+  r = R.verify_frame(b)
   if p is not None:
     # Round-trip clauses are evaluated in order chain -> fields -> payload -> re-pack and only the first
     # failing clause of a case is reported: the later ones are consequences of it (a field that came
@@ -182,6 +196,11 @@ def check_case (P, st, devs, plen):
         failed = True
         break
       names.append(type(cur).__name__)
+      if k == "gre":
+        w = gre_flags_issue(objs[i], b, r)
+        if w:
+          # the presence bits do not describe the header that follows them: every later field is read from the wrong place
+          c.bad("field:gre.flags", w); failed = True; break
       for f in K.KINDS[k]["cmp"]:
         a = getattr(objs[i], f, MISSING)
         z = getattr(cur, f, MISSING)
@@ -223,8 +242,9 @@ def check_case (P, st, devs, plen):
               % (len(b2), len(b), first_diff(b, b2)))
 
   # ---- emitted length and checksum fields vs the independent implementation ----------------
-  r = R.verify_frame(b)
+  gre_broken = any(k == "field:gre.flags" for k, _ in c.viols)
   for clause, where, field, want, got in r.issues:
+    if gre_broken and "gre>" in where: continue   # the verifier reads what follows a mis-flagged GRE header from the wrong offset
     where_key = where.rsplit(">", 1)[-1]          # tunnels (gre>, vxlan>) run the same code: one key
     if clause == "checksum":
       c.bad("checksum:%s" % where_key, "%s %s in the frame is %#06x, RFC 1071 over the raw bytes gives %#06x" % (where, field, got, want))
@@ -232,6 +252,7 @@ def check_case (P, st, devs, plen):
       c.bad("length:%s.%s" % (where_key, field), "%s %s in the frame is %s, the raw bytes say %s" % (where, field, got, want))
   # header-length fields against the options that were asked for
   for i, k in enumerate(kinds):
+    if gre_broken: break
     if k == "ipv4":
       want = 20 + len(vs[i]["options"]); got = (r.info.get("ipv4.hl") or [None])[0]
       if got is not None and got != want:
@@ -247,6 +268,21 @@ def check_case (P, st, devs, plen):
       break
     if k in ("gre", "vxlan", "unreach", "time_exceeded"): break
   return c
+
+
+def gre_flags_issue (o, b, r):
+  """RFC 1701: the C, R, K, S bits of the first GRE header of the frame against the optional fields the packed object
+  holds (checksum/offset word when C or R; key; sequence number; routing).  Returns a text or None."""
+  try: start = len(b) - len(o.pack())          # the bytes from this header to the end of the frame are o.pack()
+  except Exception: return None
+  if start < 0 or start + 2 > len(b): return None
+  flags = (b[start] << 8) | b[start + 1]
+  want = ((0x8000 if o.csum is not None else 0) | (0x4000 if o.routing is not None else 0)
+          | (0x2000 if o.key is not None else 0) | (0x1000 if o.seq is not None else 0))
+  if flags & 0xf000 != want:
+    return ("the GRE header was packed with csum=%r routing=%s key=%r seq=%r (presence bits %#06x) but its flags word says %#06x"
+            % (o.csum, "present" if o.routing is not None else None, o.key, o.seq, want, flags & 0xf000))
+  return None
 
 
 def first_diff (a, b):
@@ -290,7 +326,7 @@ def _flatten (x, c):
   return x.pack()
 
 
-def check_edit (P, st, dev, plen):
+def check_edit (P, st, dev, plen, on="parsed"):
   """One edit case.  The base vector of the stack is assembled, packed and parsed; then the single
   deviation `dev` = (layer, field, alternative) is applied to the PARSED object chain by plain attribute
   assignment (the values come from a 'donor' object assembled from scratch with that deviation, so
@@ -302,16 +338,17 @@ def check_edit (P, st, dev, plen):
                                    the packet assembled from scratch; edit-corrupts:<kind>.<field> with the ASSIGNED
                                    field when a header stops parsing / the payload or uncompared bytes change
      edit-checksum:<where> / edit-length:<where>.<field>   the new bytes do not verify (rfc1071)
+  on = 'built': the same assignment is made on the ASSEMBLED objects after they went through pack() once (a packet that
+  is sent, modified and sent again) instead of on the parsed chain; keys get the prefix 'encoded-'.
   Returns a Case, or None when the case does not apply (the from-scratch round trip of base or donor is
   itself broken - the main phase reports that - or the deviation does not change the object)."""
+  pre = "encoded-" if on == "built" else ""
   li, f, ai = dev
   kinds = [k for k, _ in st["layers"]]
   k_li = kinds[li]
   c = Case()
   for d in ((), (dev,)):
-    pre = check_case(P, st, d, plen)
-    c.calls += pre.calls
-    if pre.viols: return None
+    if not sound(P, st, d, plen): return None
   try:
     top0, objs0, vs0, payload0 = K.build(P, st, (), plen); b0 = top0.pack()
     objsU = K.build(P, st, (), plen)[1]                  # never packed: attribute defaults before pack()
@@ -329,6 +366,8 @@ def check_edit (P, st, dev, plen):
   for i in range(li + 1):
     if not isinstance(cur, K.KINDS[kinds[i]]["cls"](P)) or not getattr(cur, "parsed", False): return None
     if i < li: cur = cur.next
+  if on == "built":
+    p0, cur = top0, objs0[li]
   du, dv = vars(objsU[li]), vars(objsV[li])
   edited = []
   for a in sorted(dv):
@@ -338,11 +377,13 @@ def check_edit (P, st, dev, plen):
       edited.append(a)
   if not edited: return None
   label = "%s.%s" % (k_li, f)
+  what_on = "parsed packet" if on == "parsed" else "packet that was assembled and packed"
+  bad = lambda key, text: c.bad(pre + key, text.replace("<ON>", what_on))
   try:
     c.calls += 1
     be = p0.pack()
   except Exception as e:
-    _raised(c, e, "pack() after assigning %s of a parsed packet" % label); return c
+    _raised(c, e, "pack() after assigning %s of a %s" % (label, what_on)); return c
   c.frame = be
   try:
     c.calls += 1
@@ -357,7 +398,7 @@ def check_edit (P, st, dev, plen):
     cls = K.KINDS[k]["cls"](P)
     if not isinstance(cd, cls) or not getattr(cd, "parsed", False): break
     if not isinstance(ce, cls) or not getattr(ce, "parsed", False):
-      c.bad("edit-corrupts:" + label, "after assigning %s on the parsed packet and packing, the %s header came back as %s "
+      bad("edit-corrupts:" + label, "after assigning %s on the <ON> and packing, the %s header came back as %s "
             "(assembled from scratch with the same value it parses)" % (label, k, describe(ce, P)))
       corrupt = True
       break
@@ -370,21 +411,21 @@ def check_edit (P, st, dev, plen):
     mine = [d for d in diffs if d[0] == li and d[2] in edited]
     for i, k, a, x, z in mine:
       # the assigned attribute itself did not survive: everything else that differs follows from that
-      c.bad("edit-lost:%s.%s" % (k, a), "parsed a packet, assigned %s.%s = %s, packed and parsed again: it reads back as %s"
+      bad("edit-lost:%s.%s" % (k, a), "<ON>: assigned %s.%s = %s, packed and parsed again: it reads back as %s"
             % (k, a, short(x, 80), short(z, 80)))
       lost = True
     if not lost and diffs:
       i, k, a, x, z = diffs[0]
       # keyed by the attribute that was damaged (e.g. a checksum / length that was not recomputed), not by the
       # one that was assigned: one stale field gives one key however many edits reveal it
-      c.bad("edit-corrupts:%s.%s" % (k, a), "after assigning %s on the parsed packet, %s.%s reads back as %s; the same packet "
+      bad("edit-corrupts:%s.%s" % (k, a), "after assigning %s on the <ON>, %s.%s reads back as %s; the same packet "
             "assembled from scratch gives %s" % (label, k, a, short(z, 80), short(x, 80)))
       corrupt = True
   c.chain = "/".join(names)
   if not (lost or corrupt):
     try:
       if _flatten(ce, c) != _flatten(cd, c):
-        c.bad("edit-corrupts:" + label, "after assigning %s on the parsed packet the bytes below the headers changed" % label)
+        bad("edit-corrupts:" + label, "after assigning %s on the <ON> the bytes below the headers changed" % label)
         corrupt = True
     except Exception as e:
       _raised(c, e, "packing the payload after assigning %s" % label); corrupt = True
@@ -393,13 +434,13 @@ def check_edit (P, st, dev, plen):
     for clause, where, field, want, got in r.issues:
       wk = where.rsplit(">", 1)[-1]
       if clause == "checksum":
-        c.bad("edit-checksum:%s" % wk, "after assigning %s on the parsed packet, %s %s in the new frame is %#06x, RFC 1071 gives %#06x"
+        bad("edit-checksum:%s" % wk, "after assigning %s on the <ON>, %s %s in the new frame is %#06x, RFC 1071 gives %#06x"
               % (label, where, field, got, want))
       else:
-        c.bad("edit-length:%s.%s" % (wk, field), "after assigning %s on the parsed packet, %s %s in the new frame is %s, the raw bytes say %s"
+        bad("edit-length:%s.%s" % (wk, field), "after assigning %s on the <ON>, %s %s in the new frame is %s, the raw bytes say %s"
               % (label, where, field, got, want))
     if not c.viols and be != bd:
-      c.bad("edit-corrupts:" + label, "after assigning %s on the parsed packet the new frame differs from the one assembled from "
+      bad("edit-corrupts:" + label, "after assigning %s on the <ON> the new frame differs from the one assembled from "
             "scratch with the same values (first difference at offset %d) although every compared field agrees" % (label, first_diff(be, bd)))
   return c
 
@@ -551,6 +592,398 @@ def edit_plens (st, quick):
   plens = st["plens"]
   pick = [n for n in ((18,) if quick else (0, 1, 18)) if n in plens]
   return pick or list(plens[:1])
+
+
+# ---------------------------------------------------------------------------------------------
+# shared by the phases below: assemble the outer part of a stack around a given payload (object or bytes)
+# ---------------------------------------------------------------------------------------------
+ATTACH_FORMS = ("attr", "method", "ctor")
+
+
+def wrap (P, st, vs, i, sub, form, nbytes):
+  """Assemble layers[:i] of the stack (values vs) around `sub`, a header object or bytes, which becomes the payload of
+  layer i-1.  form: how `sub` is handed to its container -
+     attr    container.payload = sub            (what the builder table does)
+     method  container.set_payload(sub)
+     ctor    Class(payload=sub) followed by plain attribute assignments of the other fields
+  (for method / ctor the container is first made around `nbytes` placeholder bytes, so that a length the USER supplies -
+  802.3 length, EAPOL/EAP length - is the right one).  Returns (outermost, [objects of layers[:i]])."""
+  layers = st["layers"]
+  mk = K.KINDS[layers[i - 1][0]]["make"]
+  if form == "attr":
+    c = mk(P, vs[i - 1], sub)
+  else:
+    c = mk(P, vs[i - 1], b"\x00" * nbytes)
+    if form == "method":
+      c.set_payload(sub)
+    else:
+      c2 = type(c)(payload=sub)
+      for a, v in vars(c).items():
+        if a not in ("next", "prev"): setattr(c2, a, v)
+      c = c2
+  objs = [c]
+  inner = c
+  for j in range(i - 2, -1, -1):
+    inner = K.KINDS[layers[j][0]]["make"](P, vs[j], inner)
+    objs.append(inner)
+  objs.reverse()
+  return inner, objs
+
+
+def walk_to (P, st, p, i):
+  """Header number i of the parsed chain p, or None if the chain is not the stack's down to there."""
+  cur = p
+  for j, (k, _) in enumerate(st["layers"][:i + 1]):
+    if not isinstance(cur, K.KINDS[k]["cls"](P)) or not getattr(cur, "parsed", False): return None
+    if j < i: cur = cur.next
+  return cur
+
+
+_OK = {}
+def sound (P, st, devs, plen):
+  """The from-scratch round trip of this case holds (memo per process): the phases below judge histories against it."""
+  key = (st["name"], devs, plen)
+  if key not in _OK:
+    if len(_OK) > 20000: _OK.clear()
+    _OK[key] = not check_case(P, st, devs, plen).viols
+  return _OK[key]
+
+
+def frame_issues (c, b, prefix, label, below=None):
+  """Length / checksum fields of frame b against rfc1071; keys <prefix>checksum:<where>, <prefix>length:<where>.<field>.
+  below: only headers that start before this offset are judged."""
+  r = R.verify_frame(b)
+  starts = {}
+  for n, s0, e0 in r.spans: starts.setdefault(n, s0)
+  for clause, where, field, want, got in r.issues:
+    if below is not None and starts.get(where, 0) >= below: continue
+    wk = where.rsplit(">", 1)[-1]
+    if clause == "checksum":
+      c.bad("%schecksum:%s" % (prefix, wk), "%s: %s %s in the frame is %#06x, RFC 1071 over the raw bytes gives %#06x" % (label, where, field, got, want))
+    else:
+      c.bad("%slength:%s.%s" % (prefix, wk, field), "%s: %s %s in the frame is %s, the raw bytes say %s" % (label, where, field, got, want))
+  return r
+
+
+# ---------------------------------------------------------------------------------------------
+# header objects that are used again:  a header (with everything below it) that already has a container is handed to
+# another container
+# ---------------------------------------------------------------------------------------------
+REUSE_SOURCES = ("attached", "packed", "parsed")
+
+
+def tail_sig (st, i):
+  return repr((st["layers"][i:], st["payload"]))
+
+
+def same_tails (st, i):
+  """[(stack name, j)]: headers [j:] of that stack are the same kinds with the same pinned domains as headers [i:] of st."""
+  sig = tail_sig(st, i)
+  n = len(st["layers"]) - i
+  out = []
+  for name in K.ORDER:
+    s2 = K.STACKS[name]
+    j = len(s2["layers"]) - n
+    if j >= 1 and name != st["name"] and tail_sig(s2, j) == sig: out.append((name, j))
+  return out
+
+
+def check_reuse (P, st, i, old, new, source, form, plen, src=None, j=None):
+  """One history of a header object that is used twice.  The stack is assembled with the deviations `old` (all of them in
+  layers above i); header i - with everything below it - is then taken
+     attached  from that packet as assembled (it has a container, nothing was packed yet)
+     packed    from that packet after it was packed once (the same datagram sent a second time, elsewhere)
+     parsed    from the result of parsing that packet's bytes (forwarding / rewriting what was received)
+  and handed (see wrap() for the three forms) to a freshly made container with the values `new`; the new packet is packed.
+  With src / j the header is header j of ANOTHER stack whose headers [j:] are the same as [i:] of this one (an 802.1Q tag pushed
+  onto a received frame, a TCP segment moved from IPv4 to IPv6, a received datagram quoted in an ICMP error, ...).
+  It must be byte for byte the packet assembled from scratch with the values `new` (whose own round trip the main phase
+  checks):
+     reuse-checksum:<where> / reuse-length:<where>.<field>   a checksum / length field of the new frame does not verify
+     reuse-differs:<kind>@<offset>                           otherwise; <kind> is the innermost header whose bytes differ
+  Returns a Case or None (not applicable: a from-scratch round trip involved is itself broken)."""
+  kinds = [k for k, _ in st["layers"]]
+  st_o = K.STACKS[src] if src else st
+  if j is None: j = i
+  if not sound(P, st, new, plen) or (source == "parsed" and not sound(P, st_o, old, plen)): return None
+  c = Case()
+  try:
+    top_o, objs_o, _, _ = K.build(P, st_o, old, plen)
+    c.calls += 1
+    sub = objs_o[j]
+    if source != "attached":
+      bo = top_o.pack(); c.calls += 1
+      if source == "parsed":
+        sub = walk_to(P, st_o, P.pkt.ethernet(raw=bo), j); c.calls += 1
+        if sub is None: return None
+    top_e, objs_e, vs_e, payload = K.build(P, st, new, plen)
+    be = top_e.pack()
+    nbytes = len(objs_e[i].pack())
+    c.calls += 3
+  except Exception:
+    return None
+  label = ("header %d (%s) %s%s, then handed (%s) to a new %s" % (i, kinds[i], {"attached": "taken from an assembled packet", "packed":
+           "taken from a packet that was packed", "parsed": "taken from a parsed frame"}[source], " of stack %s" % src if src else "",
+           form, kinds[i - 1]))
+  try:
+    c.calls += 2
+    top, _ = wrap(P, st, vs_e, i, sub, form, nbytes)
+    b = top.pack()
+  except Exception as e:
+    _raised(c, e, label); return c
+  c.frame = b
+  if b == be: return c
+  frame_issues(c, b, "reuse-", label)
+  if not c.viols:
+    c.bad("reuse-differs:" + locate_diff(P, objs_e, kinds, payload, be, b),
+          "%s: the new frame differs from the one assembled from scratch with the same values (%d vs %d bytes, first difference "
+          "at offset %d)" % (label, len(b), len(be), first_diff(b, be)))
+  return c
+
+
+def reuse_cases (st, quick):
+  """(i, src, j, old, new, source, form): every header i >= 1 of the stack x every single deviation of a header above it (quick: of
+  its direct container) as the difference between the old and the new container, in both directions, plus 'no difference',
+  plus every other stack that has the same headers from some j on as the place the header comes from (base vectors)
+  x source x form."""
+  out = []
+  devs = K.deviations(st)
+  for i in range(1, len(st["layers"])):
+    pairs = [(None, None, (), ())]
+    for d in devs:
+      if d[0] >= i or (quick and d[0] != i - 1): continue
+      pairs.append((None, None, (d,), ())); pairs.append((None, None, (), (d,)))
+    pairs.extend((name, j, (), ()) for name, j in same_tails(st, i))
+    for src, j, old, new in pairs:
+      for source in REUSE_SOURCES:
+        for form in ATTACH_FORMS:
+          out.append((i, src, j, old, new, source, form))
+  return out
+
+
+# ---------------------------------------------------------------------------------------------
+# bytes under a demultiplexing header:  a container whose type / protocol / port field selects a parser, carrying
+# bytes which that parser cannot (completely) decode
+# ---------------------------------------------------------------------------------------------
+UNDER_CONTENTS = ("prefix", "pattern", "zeros", "ones")
+UNDER_GARBAGE_MAX = 64
+# Fixed part of every header kind in bytes, from the RFCs / IEEE standards (independent of the library): fewer bytes cannot
+# hold that header, so whatever a parser makes of them must serialise back to exactly those bytes.
+FIXED_LEN = dict(eth=14, vlan=4, llc=3, snap=8, arp=28, mpls=4, eapol=4, eap=4, lldp=2, ipv4=20, udp=8, tcp=20, icmp=4, echo=4,
+                 unreach=4, time_exceeded=4, igmp=8, igmp3=8, gre=4, vxlan=8, dhcp=240, dns=12, rip=4, ipv6=40, icmpv6=4, echo6=4,
+                 unreach6=4, toobig6=4, timex6=4, nd_rs=4, nd_ra=12, nd_ns=20, nd_na=20)
+# Headers whose payload is DEFINED as a possibly truncated datagram (RFC 792: "Internet Header + 64 bits of Original Data
+# Datagram"; RFC 4443: "as much of invoking packet as possible"): a truncated inner packet is valid content there.
+QUOTERS = frozenset(["unreach", "time_exceeded", "unreach6", "toobig6", "timex6"])
+
+
+def under_data (inner, content, t):
+  if content == "prefix": return inner[:t]
+  if content == "pattern": return K.pattern(t)
+  return (b"\x00" if content == "zeros" else b"\xff") * t
+
+
+def check_under (P, st, i, devs, content, t, plen):
+  """Layers [:i] of the stack - their selector fields say 'header kind i follows' - assembled around plain bytes:
+  the first t bytes of what the library itself emits for layers [i:] (content 'prefix': a truncated but otherwise valid
+  inner packet, e.g. the 'IP header + 8 bytes' an ICMP error quotes, or a runt TCP segment) or t garbage bytes.
+  pack, parse, pack again:
+     chain:<kind> / field:<kind>.<attr>     the headers that were assembled do not read back
+     length: / checksum:                    their length / checksum fields do not verify
+     payload:<container>><selected>         the bytes handed in as payload do not come back
+     repack:<container>><selected>          pack(parse(b)) != b
+  The last two are judged (i) when there are fewer bytes than the fixed part of the announced header (FIXED_LEN: it cannot be
+  there), (ii) when the selected parser did not decode the bytes (whatever it leaves must then serialise to the bytes it
+  was given), (iii) when it did, the container is an ICMP error header (QUOTERS) and the bytes are the beginning of a valid
+  packet - that is what such a header carries.  Otherwise the parser decoded bytes whose own length / checksum fields may be
+  inconsistent with the truncation, which the library recomputes by design: the case is only counted.  If a header above the
+  container is itself only reachable through a quoted, truncated datagram and does not decode, the undecoded remainder takes
+  the place of the payload.  Returns (Case, judged)."""
+  kinds = [k for k, _ in st["layers"]]
+  c = Case()
+  top_e, objs_e, vs_e, _ = K.build(P, st, devs, plen)
+  be = top_e.pack()
+  inner = be[len(be) - len(objs_e[i].pack()):]
+  data = under_data(inner, content, t)
+  c.calls += 3
+  ck, ik = kinds[i - 1], kinds[i]
+  label = "%s carrying %d bytes (%s) where a %s header is announced" % (ck, len(data), "the beginning of a valid %s packet of %d bytes"
+                                                                       % (ik, len(inner)) if content == "prefix" else content, ik)
+  try:
+    c.calls += 2
+    top, objs = wrap(P, st, vs_e, i, data, "attr", len(data))
+    b = top.pack()
+  except Exception as e:
+    _raised(c, e, "assembling / packing " + label); return c, True
+  c.frame = b
+  try:
+    c.calls += 1
+    p = P.pkt.ethernet(raw=b)
+  except Exception as e:
+    _raised(c, e, "parsing " + label); return c, True
+  cur = p
+  names = []
+  for j in range(i):
+    k = kinds[j]
+    if not isinstance(cur, K.KINDS[k]["cls"](P)) or not getattr(cur, "parsed", False):
+      if QUOTERS & set(kinds[:j]):
+        # below an ICMP error header the parser need not decode a quote this short: what it left stands for the bytes from here on
+        ck, ik, i = kinds[j - 1], k, j
+        data = b[len(b) - len(objs[j].pack()):]
+        break
+      c.bad("chain:%s" % k, "%s: packed a %s header but parsing gave back %s" % (label, k, describe(cur, P)))
+      return c, True
+    names.append(type(cur).__name__)
+    for f in K.KINDS[k]["cmp"]:
+      a, z = getattr(objs[j], f, MISSING), getattr(cur, f, MISSING)
+      if isinstance(a, bool) and not isinstance(z, str): z = bool(z)
+      if k == "gre" and f == "csum" and a is None and z == 0 and getattr(objs[j], "routing", None) is not None: z = None
+      ca, cz = canon(a), canon(z)
+      if ca != cz:
+        c.bad("field:%s.%s%s" % (k, f, elem_label(ca, cz) if f in LABELLED else ""),
+              "%s: %s.%s was %s when packed, %s after parsing" % (label, k, f, short(ca, 90), short(cz, 90)))
+        return c, True
+    cur = cur.next
+  c.chain = "/".join(names) + ">" + describe(cur, P)
+  decoded = isinstance(cur, K.KINDS[ik]["cls"](P)) and getattr(cur, "parsed", False)
+  frame_issues(c, b, "", label, below=len(b) - len(data))
+  judged = len(data) < FIXED_LEN[ik] or not decoded or (content == "prefix" and ck in QUOTERS)
+  if c.viols or not judged: return c, judged
+  try:
+    rest = _flatten(cur, c)
+    c.calls += 1
+    b2 = p.pack()
+  except Exception as e:
+    _raised(c, e, "re-serialising " + label); return c, True
+  how = "decoded as %s" % describe(cur, P) if decoded else "left as %s" % describe(cur, P)
+  if rest != data:
+    c.bad("payload:%s>%s" % (ck, ik), "%s: the payload (%s) serialises to %d bytes that differ from the %d bytes handed in (first "
+          "difference at offset %d)" % (label, how, len(rest), len(data), first_diff(rest, data)))
+  elif b2 != b:
+    c.bad("repack:%s>%s" % (ck, ik), "%s: pack(parse(b)) differs from b (%d vs %d bytes, first difference at offset %d of the frame; "
+          "the payload starts at %d and was %s)" % (label, len(b2), len(b), first_diff(b, b2), len(b) - len(data), how))
+  return c, judged
+
+
+def under_sources (st, i):
+  """Configurations whose layers [i:] are truncated: the base vector, every value of the fields the stack pins on the
+  container (its selectors) and its options, every option / entry list shape of header i."""
+  out = [()]
+  pins = st["layers"][i - 1][1]
+  for li, f, vals in K.domain(st):
+    if (li == i - 1 and (f in pins or f in ("options", "ext"))) or (li == i and (isinstance(vals[0], (list, dict)) or f == "options")):
+      out.extend(((li, f, ai),) for ai in range(1, len(vals)))
+  return out
+
+
+def under_cases (P, st, quick, plen):
+  """(i, devs, content, t)"""
+  out = []
+  for i in range(1, len(st["layers"])):
+    for devs in under_sources(st, i):
+      if not sound(P, st, devs, plen): continue
+      top, objs, _, _ = K.build(P, st, devs, plen)
+      top.pack()
+      T = len(objs[i].pack())
+      for content in UNDER_CONTENTS:
+        if content == "prefix": ts = range(0, T)
+        else: ts = range(0, min(T, UNDER_GARBAGE_MAX if quick else 4 * UNDER_GARBAGE_MAX) + 1)
+        out.extend((i, devs, content, t) for t in ts)
+  return out
+
+
+# ---------------------------------------------------------------------------------------------
+# the payload is replaced on a packet that was already packed / that was parsed
+# ---------------------------------------------------------------------------------------------
+SWAP_VARIANTS = ("same", "other", "shorter", "longer")
+
+
+def swap_data (variant, plen):
+  if variant == "same": return K.pattern(plen)
+  if variant == "other": return K.pattern(plen, 1)
+  if variant == "shorter": return K.pattern(max(0, plen - 17))
+  return K.pattern(plen + 1, 2)
+
+
+def check_swap (P, st, devs, plen, variant, on):
+  """The packet is assembled and packed; then, on the assembled objects (on = 'built': they went through pack() once) or on the
+  result of parsing the bytes (on = 'parsed'), the payload of the innermost header is replaced by other bytes (same bytes again /
+  same length other content / shorter / longer) and the packet is packed again.  The result must be the packet assembled from
+  scratch around the new payload:
+     [encoded-]payload-edit-checksum:<where> / -length:<where>.<field>   a checksum / length of the new frame does not verify
+     [encoded-]payload-edit-lost:<kind>                                  the new payload is not what the new frame carries
+     [encoded-]payload-edit-corrupts:<kind>.<attr>                       a header field differs from the from-scratch packet
+  ('encoded-' for on = 'built').  Returns a Case or None (not applicable)."""
+  kinds = [k for k, _ in st["layers"]]
+  data = swap_data(variant, plen)
+  if len(data) != plen and (COMPUTED_LEN_KINDS & set(kinds) or
+                            any(v.get("type") == "len" or v.get("eth_type") == "len" for v in K.values(st, devs))):
+    return None        # a length field that the USER supplies would have to be edited as well
+  if not sound(P, st, devs, plen): return None
+  c = Case()
+  pre = "encoded-" if on == "built" else ""
+  try:
+    top0, objs0, _, _ = K.build(P, st, devs, plen); b0 = top0.pack()
+    topd, objsd, _, _ = K.build(P, st, devs, plen)
+    objsd[-1].payload = data                       # never packed before: this is the from-scratch packet
+    if on == "parsed":
+      top = P.pkt.ethernet(raw=b0); c.calls += 1
+      holder = walk_to(P, st, top, len(kinds) - 1)
+      if holder is None: return None
+      # gre.csum is documented as: True = compute when packing, a number = emit that number.  A parsed header holds the
+      # number, so the from-scratch packet with the parsed object's values is the one that is given that number.
+      cur = top
+      for j, k in enumerate(kinds):
+        if k == "gre":
+          if isinstance(cur.csum, int) and not isinstance(cur.csum, bool): objsd[j].csum = cur.csum
+          objsd[j].compute_csum = objsd[j].skip_csum = False      # packing switches are not on the wire: a parsed header has none
+        cur = cur.next
+    else:
+      top, holder = top0, objs0[-1]
+    bd = topd.pack()
+    pd = P.pkt.ethernet(raw=bd)
+    c.calls += 5
+    if pd.pack() != bd or walk_to(P, st, pd, len(kinds) - 1) is None: return None
+  except Exception:
+    return None
+  label = "payload of the %s %s packet replaced by %d bytes (%s)" % ("packed" if on == "built" else "parsed", kinds[-1], len(data), variant)
+  try:
+    c.calls += 1
+    holder.payload = data
+    be = top.pack()
+  except Exception as e:
+    _raised(c, e, label); return c
+  c.frame = be
+  if be == bd: return c
+  frame_issues(c, be, pre + "payload-edit-", label)
+  if c.viols: return c
+  try:
+    c.calls += 1
+    pe = P.pkt.ethernet(raw=be)
+  except Exception as e:
+    _raised(c, e, "parsing after: " + label); return c
+  ce, cd = pe, pd
+  for i, k in enumerate(kinds):
+    if not isinstance(ce, K.KINDS[k]["cls"](P)) or not getattr(ce, "parsed", False):
+      c.bad("%spayload-edit-corrupts:%s" % (pre, k), "%s: the %s header came back as %s" % (label, k, describe(ce, P))); return c
+    for a in K.KINDS[k]["cmp"]:
+      x, z = canon(getattr(cd, a, MISSING)), canon(getattr(ce, a, MISSING))
+      if x != z:
+        c.bad("%spayload-edit-corrupts:%s.%s" % (pre, k, a), "%s: %s.%s reads back as %s; the packet assembled from scratch gives %s"
+              % (label, k, a, short(z, 80), short(x, 80)))
+        return c
+    ce, cd = ce.next, cd.next
+  try:
+    if _flatten(ce, c) != data:
+      c.bad("%spayload-edit-lost:%s" % (pre, kinds[-1]), "%s: the new frame carries %d payload bytes that are not the new payload"
+            % (label, len(_flatten(ce, c))))
+      return c
+  except Exception as e:
+    _raised(c, e, "packing the payload after: " + label); return c
+  c.bad("%spayload-edit-corrupts:%s@bytes" % (pre, locate_diff(P, objsd, kinds, data, bd, be).split("@")[0]),
+        "%s: the new frame differs from the one assembled from scratch (first difference at offset %d) although every compared field agrees"
+        % (label, first_diff(be, bd)))
+  return c
 
 
 # ---------------------------------------------------------------------------------------------
@@ -800,11 +1233,12 @@ def _run_edits (rep, name):
   P = K.pox_namespace()
   st = K.STACKS[name]
   for plen in edit_plens(st, _worker.quick):
+   for on in ("parsed", "built"):
     for dev in K.deviations(st):
       try:
-        c = check_edit(P, st, dev, plen)
+        c = check_edit(P, st, dev, plen, on)
       except Exception:
-        rep.error("edit case %s %r plen=%d: %s" % (name, dev, plen, traceback.format_exc(limit=4)))
+        rep.error("edit case %s %r plen=%d on=%s: %s" % (name, dev, plen, on, traceback.format_exc(limit=4)))
         continue
       if c is None:
         rep.extra["edit_cases_not_applicable"] = rep.extra.get("edit_cases_not_applicable", 0) + 1
@@ -813,13 +1247,77 @@ def _run_edits (rep, name):
       rep.transitions += c.calls
       rep.extra["edit_cases"] = rep.extra.get("edit_cases", 0) + 1
       keys = sorted(set(k for k, _ in c.viols))
-      rep.outcome(("edit", keys, digest(c.frame) if c.frame is not None else None, c.chain))
+      rep.outcome(("edit", on, keys, digest(c.frame) if c.frame is not None else None, c.chain))
       seen = set()
       for k, what in c.viols:
         if k in seen: continue
         seen.add(k)
         rep.violation("%s:%s" % (PID, k), "[%s] %s" % (name, what),
-                      dict(kind="edit", stack=name, dev=list(dev), plen=plen))
+                      dict(kind="edit", stack=name, dev=list(dev), plen=plen, on=on))
+
+
+def _tally (rep, name, phase, c, replay_data, extra_outcome=()):
+  rep.evaluations += 1
+  rep.transitions += c.calls
+  rep.extra[phase + "_cases"] = rep.extra.get(phase + "_cases", 0) + 1
+  keys = sorted(set(k for k, _ in c.viols))
+  rep.outcome((phase, keys, digest(c.frame) if c.frame is not None else None, c.chain) + tuple(extra_outcome))
+  seen = set()
+  for k, what in c.viols:
+    if k in seen: continue
+    seen.add(k)
+    rep.violation("%s:%s" % (PID, k), "[%s] %s" % (name, what), dict(replay_data, stack=name))
+
+
+def _na (rep, phase):
+  rep.extra[phase + "_cases_not_applicable"] = rep.extra.get(phase + "_cases_not_applicable", 0) + 1
+
+
+def _run_reuse (rep, name):
+  P = K.pox_namespace()
+  st = K.STACKS[name]
+  for plen in edit_plens(st, _worker.quick):
+   for i, src, j, old, new, source, form in reuse_cases(st, _worker.quick):
+    try:
+      c = check_reuse(P, st, i, old, new, source, form, plen, src, j)
+    except Exception:
+      rep.error("re-use case %s %r: %s" % (name, (i, src, j, old, new, source, form), traceback.format_exc(limit=4))); continue
+    if c is None: _na(rep, "reuse"); continue
+    _tally(rep, name, "reuse", c, dict(kind="reuse", i=i, src=src, j=j, old=[list(d) for d in old], new=[list(d) for d in new],
+                                       source=source, form=form, plen=plen), (source, form, src))
+
+
+def _run_under (rep, name):
+  P = K.pox_namespace()
+  st = K.STACKS[name]
+  for plen in edit_plens(st, _worker.quick):
+   try:
+     cases = under_cases(P, st, _worker.quick, plen)
+   except Exception:
+     rep.error("undecodable-payload cases of %s: %s" % (name, traceback.format_exc(limit=4))); return
+   for i, devs, content, t in cases:
+    try:
+      c, judged = check_under(P, st, i, devs, content, t, plen)
+    except Exception:
+      rep.error("undecodable-payload case %s %r: %s" % (name, (i, devs, content, t), traceback.format_exc(limit=4))); continue
+    if not judged: rep.extra["under_cases_normalised_by_design"] = rep.extra.get("under_cases_normalised_by_design", 0) + 1
+    _tally(rep, name, "under", c, dict(kind="under", i=i, devs=[list(d) for d in devs], content=content, t=t, plen=plen), (judged,))
+
+
+def _run_swap (rep, name):
+  P = K.pox_namespace()
+  st = K.STACKS[name]
+  if not st["payload"]: return
+  for plen in edit_plens(st, _worker.quick):
+   for devs in [()] + [(d,) for d in K.deviations(st)]:
+    for variant in SWAP_VARIANTS:
+      for on in ("built", "parsed"):
+        try:
+          c = check_swap(P, st, devs, plen, variant, on)
+        except Exception:
+          rep.error("payload replacement %s %r: %s" % (name, (devs, variant, on), traceback.format_exc(limit=4))); continue
+        if c is None: _na(rep, "swap"); continue
+        _tally(rep, name, "swap", c, dict(kind="swap", devs=[list(d) for d in devs], variant=variant, on=on, plen=plen), (variant, on))
 
 
 def _run_subedits (rep, name):
@@ -853,6 +1351,12 @@ def _run_part (rep, name, part):
     return _run_edits(rep, name)
   if part == "subedit":
     return _run_subedits(rep, name)
+  if part == "reuse":
+    return _run_reuse(rep, name)
+  if part == "under":
+    return _run_under(rep, name)
+  if part == "swap":
+    return _run_swap(rep, name)
   P = K.pox_namespace()
   st = K.STACKS[name]
   cases = cases_for(st, _worker.quick, part)
@@ -965,6 +1469,11 @@ def run (cfg):
     parts.extend(((name, i), estimate(K.STACKS[name], quick, i)) for i in range(-1, nd1))
     parts.append(((name, "edit"), 6 * nd1 * len(edit_plens(K.STACKS[name], quick))))
     parts.append(((name, "subedit"), 400 * (len(subedit_sources(K.STACKS[name])) - 1)))
+    nl = len(K.STACKS[name]["layers"])
+    npl = len(edit_plens(K.STACKS[name], quick))
+    parts.append(((name, "reuse"), 5 * npl * len(reuse_cases(K.STACKS[name], quick))))
+    parts.append(((name, "under"), 1500 * npl * nl))
+    if K.STACKS[name]["payload"]: parts.append(((name, "swap"), 30 * npl * (nd1 + 1)))
   total = sum(n for _, n in parts)
   target = max(1500, total // (max(1, cfg.workers) * 12))
   cur, size = [], 0
@@ -996,6 +1505,22 @@ def run (cfg):
               "element of every list/dict held by a header (RIP entries, DHCP options, LLDP TLVs, TCP options, IGMPv3 records, ND options, "
               "IPv6 extension headers) is changed in place (lowest bit flipped), packed, and compared with the same assignment made on a "
               "packet assembled from scratch (cases whose from-scratch packet does not carry the new value are not applicable).  "
+              "Encoded-edit phase: the same single-field assignments on the ASSEMBLED objects after a first pack().  Payload-replacement "
+              "phase: per stack with a raw payload, base vector and every single deviation x payload %s: packed; then on the assembled "
+              "objects and on the parsed chain the innermost payload is replaced by {the same bytes, other bytes of the same length, "
+              "17 bytes less, 1 byte more}, packed again and compared with the packet assembled from scratch around the new payload "
+              "(a parsed GRE header's numeric checksum counts as a given value, as documented).  Re-use phase: per stack, every header "
+              "i >= 1 with everything below it is taken from (a) the assembled packet, (b) the packet after a pack(), (c) the parsed frame, "
+              "where the old packet differs from the new one by every single deviation of %s (both directions, and no difference), or is the "
+              "base vector of every OTHER stack with the same headers from some j on (802.1Q push/pop, IPv4<->IPv6, tunnel and ICMP-quote "
+              "stacks); it is handed to a newly made container by .payload = x / set_payload(x) / Class(payload=x); the packed result must "
+              "equal the from-scratch packet and verify.  Undecodable-payload phase: per stack and header boundary i, headers [:i] "
+              "(selector fields announcing header i; every pinned selector value and option shape of the container, every option / entry "
+              "list shape of header i) are assembled around plain bytes: every proper prefix (length 0..T-1) of the library's own bytes "
+              "for headers [i:], and pattern / all-zero / all-one bytes of every length 0..min(T,%d); pack, parse, pack: container fields, "
+              "lengths and checksums as in the main phase; the bytes must come back and re-encode identically whenever they are shorter than "
+              "the fixed part of the announced header (table FIXED_LEN from the RFCs), or the parser did not decode them, or the container "
+              "is an ICMP/ICMPv6 error header quoting a truncated valid datagram (RFC 792 'header + 64 bits' is t = 28 here).  "
               "Corpus phase: pack(parse(f)) == f for every corpus frame f (families in pktcorpus.CORPUS_NOT_CANONICAL: the "
               "re-encoding is a fixpoint).  History phase: for every ordered pair (A, B) of the %d corpus frames (A == B included), "
               "in a fresh process per A: parse A, parse B; every attribute of B's parsed chain and its re-encoding must equal B parsed "
@@ -1004,13 +1529,26 @@ def run (cfg):
                  "{0,1,18} (+1499,1500 on the 0..1500 stacks)" if quick else "the stack's whole range",
                  "{0,1}" if quick else "{0,1,18}",
                  "" if quick else ", every triple of deviations in different fields x payload {0,1} on stacks with <= 100 deviations",
-                 129 if quick else 1501, "{18}" if quick else "{0,1,18}", len(K.corpus())))
-  rep.bound = dict(stacks=len(names), deviations=2 if quick else 3, payload_max=1500, work_items=len(items))
+                 129 if quick else 1501, "{18}" if quick else "{0,1,18}", "{18}" if quick else "{0,1,18}",
+                 "its direct container" if quick else "any header above it", UNDER_GARBAGE_MAX if quick else 4 * UNDER_GARBAGE_MAX,
+                 len(K.corpus())))
+  rep.bound = dict(stacks=len(names), deviations=2 if quick else 3, payload_max=1500, work_items=len(items),
+                   reuse=dict(sources=list(REUSE_SOURCES), forms=list(ATTACH_FORMS), old_new_difference="1 deviation of %s, or another stack "
+                              "with the same tail" % ("the direct container" if quick else "any outer header")),
+                   undecodable_payload=dict(prefix_lengths="0..T-1", garbage_lengths="0..min(T,%d)" % (UNDER_GARBAGE_MAX if quick else 4 * UNDER_GARBAGE_MAX),
+                                            contents=list(UNDER_CONTENTS)),
+                   payload_replacement=list(SWAP_VARIANTS), history_payload_lengths=[18] if quick else [0, 1, 18])
   rep.assumptions = ["frames carry no trailer padding (a total-length field accounts for every remaining byte)",
                      "field values are taken from the boundary sets in pktcorpus.KINDS, not from the whole wire range",
                      "ICMPv6, IGMP and GRE checksums are not named by the property: checked by round trip only",
                      "fields the library does not compute (802.3 length, EAPOL body length, EAP length, IPv4 IHL) are supplied "
-                     "correctly by the builder"]
+                     "correctly by the builder",
+                     "a header object belongs to the container it was handed to LAST: a container that still references an object which "
+                     "was meanwhile handed to another container is not packed again",
+                     "bytes that a parser accepts as the announced header although their own length / checksum fields do not fit the "
+                     "truncation (e.g. 30 bytes of a 38 byte TCP segment under IPv4) are recomputed by the library by design: counted, "
+                     "not judged - except under ICMP/ICMPv6 error headers, whose payload is by definition a truncated datagram",
+                     "gre.csum: True = compute, number = emit as given (class docstring); a parsed header holds a number"]
   return rep
 
 
@@ -1045,6 +1583,29 @@ def replay (cfg, data):
     head = "fresh process; for every corpus frame B up to %s: parse %s, parse B, compare B with B parsed first thing in a fresh process" % (data["b"], data["a"])
     return bool(r.violations), head + "\n" + ("\n".join(text) or "every B parsed exactly as in isolation")
   st = K.STACKS[data["stack"]]
+  tup = lambda ds: tuple(tuple(d) for d in ds)
+  fmt = lambda c, ok: "\n".join("VIOLATED %s:%s: %s" % (PID, k, w) for k, w in c.viols) or ok
+  if data.get("kind") == "reuse":
+    c = check_reuse(P, st, data["i"], tup(data["old"]), tup(data["new"]), data["source"], data["form"], data["plen"],
+                    data.get("src"), data.get("j"))
+    head = ("stack %s, payload %d bytes: assembled with deviations %r; header %d (%s) with everything below it taken from it (%s) and "
+            "handed (%s) to a newly made container of stack %s, the other headers made with deviations %r; packed and compared with "
+            "the packet assembled from scratch" % (data.get("src") or st["name"], data["plen"], data["old"], data.get("j") or data["i"],
+                                                   st["layers"][data["i"]][0], data["source"], data["form"], st["name"], data["new"]))
+    if c is None: return False, head + "\nnot applicable"
+    return bool(c.viols), head + "\nframe: %s\n" % (c.frame.hex() if c.frame is not None else "<not produced>")[:400] + fmt(c, "identical to the from-scratch packet")
+  if data.get("kind") == "under":
+    c, judged = check_under(P, st, data["i"], tup(data["devs"]), data["content"], data["t"], data["plen"])
+    head = ("stack %s with deviations %r: headers [0..%d] assembled around %d bytes (%s of the library's own bytes for headers [%d..]); "
+            "pack, parse, pack" % (st["name"], data["devs"], data["i"] - 1, data["t"], data["content"], data["i"]))
+    return bool(c.viols), head + "\nframe: %s\nparsed: %s\n" % ((c.frame.hex() if c.frame is not None else "<not produced>")[:400], c.chain) + fmt(
+      c, "round trip holds" if judged else "payload decoded, its own fields do not verify: the library normalises them (not judged)")
+  if data.get("kind") == "swap":
+    c = check_swap(P, st, tup(data["devs"]), data["plen"], data["variant"], data["on"])
+    head = ("stack %s with deviations %r, payload %d bytes: packed; then on the %s objects the innermost payload is replaced (%s) and "
+            "the packet packed again" % (st["name"], data["devs"], data["plen"], data["on"], data["variant"]))
+    if c is None: return False, head + "\nnot applicable"
+    return bool(c.viols), head + "\nframe: %s\n" % (c.frame.hex() if c.frame is not None else "<not produced>")[:400] + fmt(c, "identical to the from-scratch packet")
   if data.get("kind") == "subedit":
     devs = tuple(tuple(d) for d in data["devs"])
     c = check_subedit(P, st, devs, data["plen"], tuple(data["point"]))
@@ -1055,10 +1616,12 @@ def replay (cfg, data):
     return bool(c.viols), head + "\n" + "\n".join("VIOLATED %s:%s: %s" % (PID, k, w) for k, w in c.viols)
   if data.get("kind") == "edit":
     dev = tuple(data["dev"])
-    c = check_edit(P, st, dev, data["plen"])
+    c = check_edit(P, st, dev, data["plen"], data.get("on", "parsed"))
     val = K.values(st, (dev,))[dev[0]][dev[1]]
-    lines = ["stack %s, payload %d bytes: base vector packed and parsed; then on the parsed chain layer %d (%s) %s := %s; "
-             "packed and parsed again" % (st["name"], data["plen"], dev[0], st["layers"][dev[0]][0], dev[1], short(val, 80))]
+    lines = ["stack %s, payload %d bytes: base vector packed%s; then on the %s layer %d (%s) %s := %s; "
+             "packed and parsed again" % (st["name"], data["plen"], " and parsed" if data.get("on", "parsed") == "parsed" else "",
+                                          "parsed chain" if data.get("on", "parsed") == "parsed" else "assembled objects",
+                                          dev[0], st["layers"][dev[0]][0], dev[1], short(val, 80))]
     if c is None:
       return False, lines[0] + "\nnot applicable (the from-scratch round trip of base or donor already fails, or nothing to assign)"
     lines.append("frame after the edit: %s" % (c.frame.hex() if c.frame is not None else "<not produced>")[:400])
